@@ -98,6 +98,13 @@ def alternative_or_next(
     """
     new_branch = _branch_conditions(*conditions)
     current_node = SymbolicExpression._current_parent_()
+    # the refinements that were already written in the current block wrap it as their left operand, the new branch is a
+    # branch of the refined block, wherever in the block the refinements were written.
+    while (
+        isinstance(current_node._parent_, ExceptIf)
+        and current_node is current_node._parent_.left
+    ):
+        current_node = current_node._parent_
     if isinstance(current_node._parent_, (Alternative, Next)):
         current_node = current_node._parent_
     # climb to the top of the chain of branches that were already attached to the current node, otherwise the new branch
